@@ -12,6 +12,7 @@ import EAO.Driver.State
 import EAO.Driver.Prices
 import EAO.Driver.Linked
 import EAO.Driver.CoarseBuild
+import EAO.Driver.SplitBuild
 /-!
 Line-protocol driver: one JSON request per line on stdin, one JSON response per line on stdout.
 `{"ok": …}` or `{"err": "<class>"}`.  Unknown or ill-formed requests are answered with
@@ -21,7 +22,7 @@ operations it knows.
 open Lean EAO EAO.Driver
 
 def handlers : List (String → Json → Option (Except String Json)) :=
-  [handleCore, handleGrid, handleOrderBook, handleContract, handleStorage, handleSlp, handleCHP, handleScaled, handlePeriodic, handleSplit, handleState, handlePrices, handleLinked, handleCoarseBuild]
+  [handleCore, handleGrid, handleOrderBook, handleContract, handleStorage, handleSlp, handleCHP, handleScaled, handlePeriodic, handleSplit, handleState, handlePrices, handleLinked, handleCoarseBuild, handleSplitBuild]
 
 def handle (j : Json) : Except String Json := do
   let op ← field j "op" Json.getStr?
